@@ -45,7 +45,8 @@ def conn_kinds(topo, sid, slots):
 def pair(topo, variant):
     sims = sorted(topo['types'])
     canon = {'until': variant.get('until', 3), 'K': variant.get('K', 2), 'cache': True, 'lazy': True, 'D': 0, 'sync': sims,
-             'salt': 0, 'no_ref': True, 'future_outputs': variant.get('future_outputs', False), 'no_self': variant.get('no_self', [])}
+             'salt': 0, 'no_ref': True, 'future_outputs': variant.get('future_outputs', False), 'no_self': variant.get('no_self', []),
+             'gain': variant.get('gain', {})}
 
     def h(eng):
         r1 = sysrun.run_world(eng, topo, canon, rules=())
@@ -55,7 +56,7 @@ def pair(topo, variant):
         r2 = sysrun.run_world(eng, topo, v, rules=())
         log2 = per_sim(r2.log)
         fp = [topo['name']]
-        vdesc = {k: variant[k] for k in ('cache', 'lazy', 'sync', 'debug', 'reverse_start', 'salt', 'D', 'remote') if k in variant}
+        vdesc = {k: variant[k] for k in ('cache', 'lazy', 'sync', 'debug', 'reverse_start', 'salt', 'D', 'remote', 'remote_cmd', 'gain') if k in variant}
         desc = f"{topo['name']} variant={vdesc}"
         if r1.outcome != 'done' or r2.outcome != 'done':
             # completion is C05's business; a crash in only one configuration is still a divergence
@@ -109,6 +110,10 @@ def variants(topo, tier):
             out.append({'cache': True, 'lazy': True, 'sync': sims, 'remote': sims[:1]})
             if not q:
                 out.append({'cache': False, 'lazy': False, 'sync': sims, 'remote': sims[1:]})
+    # cmd starter (in memory): one simulator is configured through its process environment; either start order
+    if topo['name'] in ('tb2', 'hyb2') or (not q and len(sims) <= 2 and all(t_ != 'event-based' for t_ in topo['types'].values())):
+        out.append({'cache': True, 'lazy': True, 'sync': sims, 'remote_cmd': sims, 'gain': {sims[0]: 1}})
+        out.append({'cache': True, 'lazy': True, 'sync': sims, 'remote_cmd': sims, 'gain': {sims[-1]: 1}, 'reverse_start': True})
     if not q:
         out.append({'cache': False, 'lazy': False, 'sync': [], 'reverse_start': True, 'salt': 2})
         out.append({'cache': True, 'lazy': True, 'sync': [], 'D': 1})
